@@ -85,12 +85,30 @@ class Roles:
         return [kinds[k] for k in selection], universe, selection
 
 
+def sameid_roles(roles):
+    """leaves that share ONE license id and differ only in '+', -only and the exception; universe likewise"""
+    r = roles.rng
+    fam = roles.family(2)
+    i1 = r.randrange(0, len(fam) - 1)
+    v1 = r.choice(fam[i1])
+    later = r.choice(fam[r.randrange(i1 + 1, len(fam))])
+    e1, e2 = r.sample(roles.t["exceptions"], 2)
+    plus = v1 + "+" if not v1.endswith("-or-later") else v1
+    leaves = [v1, v1 + " WITH " + e1, plus, v1 + " WITH " + e2]
+    universe = [v1, v1 + " WITH " + e1, later, v1 + " WITH " + e2, plus + " WITH " + e1]
+    return leaves, universe
+
+
 FIXED_SELECTIONS = [["fam", "ref", "plain", "famplus"], ["orlater", "docref", "withexc", "only"], ["famplus", "ref", "only", "withexc"]]
 
 
 def run_tree(ctx, name, rng, leaves, selection=None):
     roles = Roles(ctx, rng)
-    texts, universe, sel = roles.tree_roles(selection)
+    if selection == "sameid":
+        texts, universe = sameid_roles(roles)
+        sel = "same id, different '+' / exception"
+    else:
+        texts, universe, sel = roles.tree_roles(selection)
     ctx.write_params("MC_Tree_P", {"MaxLeaves": str(leaves), "LeafTexts": tla_seq(texts), "Universe": tla_seq(universe)})
     ctx.notes.append("%s: leaves<=%d roles=%s texts=%s universe=%s" % (name, leaves, sel, texts, universe))
     r = ctx.run_tlc(name, "MC_Tree", "MC_Tree", timeout=3000)
@@ -110,8 +128,10 @@ def tree_family(ctx, relevant, flavor, rule):
         run_tree(ctx, "tree4c", rng, 4, FIXED_SELECTIONS[2])
         run_tree(ctx, "tree4s", rng, 4)
         ctx.drive("trace", flavor, 1500, leaves=12)
+        run_tree(ctx, "tree4-sameid", rng, 4, "sameid")
     else:
         run_tree(ctx, "tree4", rng, 4)
+        run_tree(ctx, "tree3-sameid", rng, 3, "sameid")
         ctx.drive("trace", flavor, 300, leaves=10)
     ctx.validate_trace("trace")
     if ctx.model_violation and not [m for m in ctx.mismatches if m["what"] in relevant]:
@@ -133,6 +153,7 @@ def c07(ctx):
     ctx.model_violation = None
     # monotonicity over all sub-lists: MC_Tree's verdict vectors (model invariant MonoInv + direct check on the observed verdicts)
     run_tree(ctx, "tree", rng, 4 if thorough else 3)
+    run_tree(ctx, "tree-sameid", rng, 4 if thorough else 3, "sameid")
     # permutations, duplications, re-spellings
     roles = Roles(ctx, rng)
     texts, universe, sel = roles.tree_roles()
@@ -141,10 +162,34 @@ def c07(ctx):
              "(" + texts[2] + " OR " + texts[0] + ") AND " + texts[1], texts[1] + " OR " + texts[3] + " AND " + texts[0]]
     uni = universe[:4] if not thorough else universe
     uni = list(dict.fromkeys(uni))
-    ctx.write_params("MC_AllowedSpell_P", {"Exprs": tla_seq(exprs[: 5 if thorough else 3]), "Universe": tla_seq(uni), "MaxDup": "1",
+    ctx.write_params("MC_AllowedSpell_P", {"Exprs": tla_seq(exprs[: 5 if thorough else 2]), "Universe": tla_seq(uni), "MaxDup": "1",
                                            "MaxResp": "2" if thorough else "1", "MixK": str(ctx.seed % 2)})
     ctx.notes.append("allowedspell: exprs=%s universe=%s" % (exprs, uni))
     r = ctx.run_tlc("allowedspell", "MC_AllowedSpell", "MC_AllowedSpell", timeout=3000)
+    if r["violated"]:
+        raise Infra("model-level invariant %s failed in MC_AllowedSpell (specification problem, not a verdict)" % r["violated"])
+    # entries that share an id and differ only in the exception; a listed -or-later id whose match goes through the version range
+    act = set(t["active"])
+    gnu = [x for x in t["active"] if x.endswith("-or-later") and x[:-9] in roles.pos and any(
+        roles.pos[y][0][0] == roles.pos[x[:-9]][0][0] and roles.pos[y][0][1] > roles.pos[x[:-9]][0][1] for y in roles.pos if len(roles.pos[y]) == 1 and y in act)]
+    fam = roles.family(2)
+    x = rng.choice(fam[0])
+    e1, e2 = rng.sample(t["exceptions"], 2)
+    z = max(rng.sample(roles.unranged, 4))          # an entry that sorts late
+    uni2 = [x + " WITH " + e1, x + " WITH " + e2, x, z]
+    exprs2 = [x + " WITH " + e2, x + " WITH " + e1 + " AND " + z, x + " OR " + z]
+    if gnu:
+        g = rng.choice(gnu)
+        base = g[:-9]
+        laters = [y for y in roles.pos if len(roles.pos[y]) == 1 and y in act and roles.pos[y][0][0] == roles.pos[base][0][0]
+                  and roles.pos[y][0][1] > roles.pos[base][0][1] and not y.endswith("-or-later")]
+        uni2[3] = g
+        exprs2[1] = rng.choice(laters) + " AND " + x + " WITH " + e1
+        exprs2[2] = rng.choice(laters)
+    ctx.write_params("MC_AllowedSpell_P", {"Exprs": tla_seq(exprs2 if thorough else exprs2[:3]), "Universe": tla_seq(uni2), "MaxDup": "1",
+                                           "MaxResp": "2" if thorough else "1", "MixK": str(ctx.seed % 2)})
+    ctx.notes.append("allowedspell-sameid: exprs=%s universe=%s" % (exprs2, uni2))
+    r = ctx.run_tlc("allowedspell-sameid", "MC_AllowedSpell", "MC_AllowedSpell", timeout=3000)
     if r["violated"]:
         raise Infra("model-level invariant %s failed in MC_AllowedSpell (specification problem, not a verdict)" % r["violated"])
     ctx.drive("trace", "sat", 1200 if thorough else 300, leaves=6)
@@ -161,21 +206,26 @@ def c10(ctx):
     thorough = ctx.tier == "thorough"
     roles = Roles(ctx, rng)
     texts, universe, sel = roles.tree_roles()
-    ctx.write_params("MC_Tree_P", {"MaxLeaves": "3", "LeafTexts": tla_seq(texts[:3] if not thorough else texts), "Universe": tla_seq(universe)})
-    ctx.write_params("MC_Rewrite_P", {"StartLeaves": "3", "MaxSteps": "2" if thorough else "1", "MaxSize": "8" if thorough else "7"})
-    ctx.notes.append("rewrite: roles=%s texts=%s universe=%s" % (sel, texts, universe))
-    r = ctx.run_tlc("rewrite", "MC_Rewrite", "MC_Rewrite", timeout=3400)
-    if r["violated"]:
-        raise Infra("model-level invariant %s failed in MC_Rewrite (the rewrite rules themselves are wrong: specification problem)" % r["violated"])
+    stexts, suniverse = sameid_roles(roles)
+    runs = [("rewrite", texts[:3] if not thorough else texts, universe if thorough else universe[:4], "3", sel),
+            ("rewrite-sameid", stexts if thorough else stexts[:3], suniverse if thorough else suniverse[:4], "3" if thorough else "2", "same id, different '+' / exception")]
+    for name, tx, uni, start, what in runs:
+        ctx.write_params("MC_Tree_P", {"MaxLeaves": "3", "LeafTexts": tla_seq(tx), "Universe": tla_seq(uni)})
+        ctx.write_params("MC_Rewrite_P", {"StartLeaves": start, "MaxSteps": "2" if thorough else "1", "MaxSize": "8" if thorough else "7"})
+        ctx.notes.append("%s: roles=%s texts=%s universe=%s" % (name, what, tx, uni))
+        r = ctx.run_tlc(name, "MC_Rewrite", "MC_Rewrite", timeout=3400)
+        if r["violated"]:
+            raise Infra("model-level invariant %s failed in MC_Rewrite (the rewrite rules themselves are wrong: specification problem)" % r["violated"])
     ctx.model_violation = None
-    run_tree(ctx, "tree", rng, 4 if not thorough else 5)
+    run_tree(ctx, "tree", rng, 3 if not thorough else 5)
+    run_tree(ctx, "tree-sameid", rng, 3 if not thorough else 4, "sameid")
     ctx.drive("trace", "sat", 1200 if thorough else 300, leaves=10)
     ctx.validate_trace("trace")
     return finish(ctx, relevant={"verdict", "extract-invented", "extract-missing", "extract-duplicate", "extract-error", "non-monotone"},
                   rule="every tree up to 3 leaves x every chain of rewrites (commute, re-associate, idempotence, absorption, distribution both "
                        "ways) applied at any node x 3 renderings (minimal/full parentheses, widened blanks) x all allowed subsets: the real "
                        "verdicts must equal the ORIGINAL's; term-preserving chains keep the ExtractLicenses set; '(E) AND (F)' / '(E) OR (F)' "
-                       "compositions; non-trivial = satisfied under some subset")
+                       "compositions; leaf texts: seeded roles and terms sharing one id; non-trivial = satisfied under some subset")
 
 
 def c06(ctx):
@@ -404,9 +454,28 @@ def c09(ctx):
         lic = rng.sample(lic, 220)
         exc = rng.sample(exc, 30)
     p1, p2 = rng.sample(roles.unranged, 2)
-    ctx.write_params("MC_Case_P", {"LicIds": tla_seq(lic), "ExcIds": tla_seq(exc), "MixK": str(ctx.seed % 2), "P1": Q(p1), "P2": Q(p2)})
+    if quick:
+        # keep every listed -only / -or-later id and every family member in the sample
+        keep = [x for x in t["active"] if x.endswith("-only") or x.endswith("-or-later")]
+        lic = list(dict.fromkeys(keep + lic))
+
+    def rel(x):
+        base = x[:-9] if x.endswith("-or-later") else x
+        if base in roles.pos and len(roles.pos[base]) == 1:
+            f, st = roles.pos[base][0]
+            others = [y for y in roles.pos if len(roles.pos[y]) == 1 and roles.pos[y][0][0] == f and roles.pos[y][0][1] != st
+                      and not y.endswith("-or-later") and (y in t["active"] or y in t["deprecated"])]
+            if others:
+                y = rng.choice(others)
+                # the side with the lower version carries the '+', so that the two match only through the range
+                if roles.pos[y][0][1] > st:
+                    return y if x.endswith("-or-later") else y      # x(-or-later / plain) vs later y: matches iff x has '+'
+                return y + "+"
+        return x
+    ctx.write_params("MC_Case_P", {"LicIds": tla_seq(lic), "ExcIds": tla_seq(exc), "LicRel": tla_seq([rel(x) for x in lic]),
+                                   "MixK": str(ctx.seed % 2), "P1": Q(p1), "P2": Q(p2)})
     extra_inv = ""
-    ctx.write_cfg("MC_Case", invariants=["CaseInv", "Emit"])
+    ctx.write_cfg("MC_Case", invariants=["Emit", "CaseInv"])   # Emit first: with -continue TLC skips later invariants of a violating state
     # FoldUnique is an assumption about the whole shipped lists: check it as an invariant of the initial state
     with open(os.path.join(ctx.spec, "MC_Case.cfg"), "a") as f:
         f.write("INVARIANT FoldUnique\n")
@@ -624,6 +693,28 @@ def c13(ctx):
                                "observed": hs["outBytes"], "source": "history"})
     ctx.stages.append({"stage": "histories", "kind": "call histories with repeats in given/shuffled/reversed order", **{k: hs[k] for k in ("calls", "distinctCalls", "outBytes")}})
     ctx.validate_trace("hist-trace")
+    # the same workload in three FRESH processes, one order each: state kept inside a process cannot hide an order dependence
+    dumps = {}
+    for order in ("given", "reversed", "shuffled"):
+        dp = os.path.join(ctx.scratch, "hist-%s.json" % order)
+        p2 = subprocess.run([ctx.harness, "conc", "hist", "-seed", str(ctx.seed), "-n", str(3000 if thorough else 600), "-order", order, "-dump", dp],
+                            capture_output=True, text=True, timeout=1200)
+        if p2.returncode != 0:
+            raise Infra("conc hist -order %s failed: %s" % (order, p2.stderr[-1500:]))
+        with open(dp) as fh:
+            dumps[order] = json.load(fh)
+        ctx.replayed += json.loads(p2.stdout)["calls"]
+    ref = dumps["given"]
+    crossdiff = 0
+    for order in ("reversed", "shuffled"):
+        for k, o in dumps[order]["results"].items():
+            if k in ref["results"] and ref["results"][k] != o:
+                c = ref["calls"][int(k)]
+                crossdiff += 1
+                ctx.mismatches.append({"what": "result-depends-on-history", "fn": c["fn"], "expr": c["e"], "list": c["a"],
+                                       "expected": ref["results"][k], "observed": o, "source": "history: fresh process, %s order vs given order" % order})
+    ctx.stages.append({"stage": "histories-fresh-processes", "kind": "one order per fresh process, results of equal calls compared across processes",
+                       "distinct_calls": len(ref["calls"]), "differences": crossdiff})
     # free-running concurrency under the race detector
     race = ctx.build(race=True)
     sp = subprocess.run([race, "conc", "stress", "-seed", str(ctx.seed), "-n", str(1500 if thorough else 300),
@@ -776,7 +867,9 @@ def run_lists(ctx, name, rng, maxlist):
     t = ctx.tables
     p1, p2 = rng.sample(roles.unranged, 2)
     exc = rng.choice(t["exceptions"])
-    pool = [p1, p1.lower() if p1.lower() != p1 else p1.upper(), p1 + " AND " + p2, "(" + p2 + ")", "FOO-bar", p1 + " AND", "(",
+    comp = p1 + " AND " + p2
+    # includes two strings that are equal up to letter case but differ in validity (lower-case operator)
+    pool = [p1, p1.lower() if p1.lower() != p1 else p1.upper(), comp, comp.lower(), "(" + p2 + ")", "FOO-bar", p1 + " AND", "(",
             "", p2 + " WITH " + exc]
     exprs = [p1 + " OR " + p2, p1 + " OR", ""]
     ctx.write_params("MC_Lists_P", {"MaxList": str(maxlist), "Pool": tla_seq(pool), "Exprs": tla_seq(exprs)})
@@ -805,7 +898,7 @@ def c04(ctx):
     ctx.drive("trace", "lists", 1000 if thorough else 300, leaves=5)
     ctx.validate_trace("trace")
     return finish(ctx, relevant=C04_WHATS,
-                  rule="every list up to the bound over a 9-string pool as ValidateLicenses argument and as allowed list of three expressions; "
+                  rule="every list up to the bound over a 10-string pool as ValidateLicenses argument and as allowed list of three expressions; "
                        "every lexeme text and token sequence as single argument of all three entry points (agreement on validity, result "
                        "false/nil with every error, exact invalid list); non-trivial = mixed valid/invalid list or valid text")
 
